@@ -679,12 +679,7 @@ ElemNumber::getPreviousNode(
                 next = DOMServices::getParentOfNode(*pos);
 
                 if(0 == next ||
-                   next->getNodeType() == XalanNode::DOCUMENT_NODE ||
-                   (0 != fromMatchPattern &&
-                        fromMatchPattern->getMatchScore(
-                            next,
-                            *this,
-                            executionContext) != XPath::eMatchScoreNone))
+                   next->getNodeType() == XalanNode::DOCUMENT_NODE)
                 {
                     pos = 0; // return 0 from function.
 
@@ -703,6 +698,20 @@ ElemNumber::getPreviousNode(
                     if(0 != child)
                         next = child;
                 }
+            }
+
+            // Only nodes after the first node before the current node
+            // that matches the from pattern are counted, whether that
+            // node is an ancestor or not.
+            if(0 != fromMatchPattern &&
+               fromMatchPattern->getMatchScore(
+                    next,
+                    *this,
+                    executionContext) != XPath::eMatchScoreNone)
+            {
+                pos = 0; // return 0 from function.
+
+                break; // from while loop
             }
 
             pos = next;
